@@ -60,7 +60,9 @@ INVARIANT Emit
 # byte classes: option headers with delta/length nibbles 0, 1, 13, 14, 15 and
 # ordinary ones (0xB1/0xB2 Uri-Path = string, 0x61 Observe = uint), the marker,
 # and bytes that matter inside values (NUL, ASCII, UTF-8 lead / continuation)
-ALPHABET = [0x00, 0x01, 0x0D, 0x0E, 0x0F, 0x61, 0x80, 0xA9, 0xB1, 0xB2, 0xC3, 0xD0, 0xDD, 0xE0, 0xF0, 0xFF]
+# (C3 80 = U+00C0, in NFC; CD 80 = U+0340, valid UTF-8 that is in no Unicode
+# normal form: string values must pass through unnormalised)
+ALPHABET = [0x00, 0x01, 0x0D, 0x0E, 0x0F, 0x61, 0x80, 0xB1, 0xB2, 0xC3, 0xCD, 0xD0, 0xDD, 0xE0, 0xF0, 0xFF]
 JVM = {"JDK_JAVA_OPTIONS": "-Xss512m"}
 
 
@@ -394,7 +396,8 @@ def work(rep, args):
         lap("read_model_cases")
 
         # ---- 2. messages: boundary sweep, huge values, seeded random ----------------
-        msgs = L.boundary_messages(impl) + L.huge_messages()
+        L.check_unicode_samples()
+        msgs = L.boundary_messages(impl) + L.unicode_messages(impl) + L.huge_messages()
         nrand = 1500 if quick else 20000
         msgs += [L.gen_message(rng, impl) for _ in range(nrand)]
         seen = set()
